@@ -232,6 +232,12 @@ class ModGen:
                 al, na = rng.choice(['A', 'B2']), rng.choice(['N', 'A'])
         return 'm:%s:%d:%s:%s:%d:%s:%s' % (t, disp, base, index, scale, al, na)
 
+    def va_list_op(self, fn):
+        """va_list operand: an int operand or (MIR.md) memory of undefined type"""
+        if self.rng.random() < 0.5:
+            return self.mem(fn, ['undef'])
+        return self.operand(fn, 'int', False)
+
     def operand(self, fn, mode, out):
         rng = self.rng
         regs = fn['regs']
@@ -370,7 +376,12 @@ class ModGen:
                 continue
             nm, ops = rng.choice(usable)
             if nm == 'va_arg':
-                o = [self.operand(fn, 'int', True), self.operand(fn, 'int', False), self.mem(fn, INT_T + ['f', 'd', 'ld'])]
+                o = [self.operand(fn, 'int', True), self.va_list_op(fn), self.mem(fn, INT_T + ['f', 'd', 'ld'])]
+            elif nm in ('va_start', 'va_end'):
+                o = [self.va_list_op(fn)]
+            elif nm == 'va_block_arg':
+                o = [self.operand(fn, 'int', False), self.va_list_op(fn), self.operand(fn, 'int', False),
+                     self.operand(fn, 'int', False)]
             elif nm in ('prbeq', 'prbne'):
                 o = ['l:%d' % self.use_label(fn), self.operand(fn, rng.choice(['int', 'd']), True), 'i:%d' % rng.randint(0, 9)]
             elif nm == 'prset':
